@@ -67,3 +67,37 @@ Definition py_prod (l : list nat) : nat := fold_right Nat.mul 1 l.     (* np.pro
 
 (* len(v) of a value whose kind is not known statically: elements of a tensor, members of a list / tuple *)
 Definition py_len (v : pyv) : nat := match v with PT t => length t | PL l | PU l => length l end.
+
+(* ---- primitives used by the get_examples bodies of the combinators ---- *)
+
+(* torch.cat(values): all members must be tensors (TypeError otherwise) *)
+Definition cat_all (vs : list pyv) : option (list Z) :=
+  if forallb is_tensor vs then Some (concat (map as_tensor vs)) else None.
+
+(* zip( *sequences ): the i-th members of every sequence, truncated to the shortest *)
+Fixpoint zipn (css : list (list (list Z))) : list (list (list Z)) :=
+  match css with
+  | [] => []
+  | [cs] => map (fun c => [c]) cs
+  | cs :: rest => zipwith cons cs (zipn rest)
+  end.
+
+(* zip( *values ) followed by torch.cat of each tuple: a 1-D tensor among the values is iterated into
+   0-d tensors, which torch.cat rejects -- modelled as an exception of the whole expression *)
+Definition zip_star (vs : list pyv) : option (list (list (list Z))) :=
+  if existsb is_tensor vs then None else Some (zipn (map as_seq vs)).
+
+(* torch.meshgrid( *axes, indexing='ij'): one N-d array per axis; array j holds, at the multi-index
+   (i_1..i_m), the value axes[j][i_j].  An N-d array is represented by its row-major contents, so
+   [flatten_nd] is the identity on the representation.  Row-major enumeration of all combinations: *)
+Fixpoint mg_cart (cs : list (list Z)) : list (list Z) :=
+  match cs with
+  | [] => [[]]
+  | c :: cs' => flat_map (fun x => map (cons x) (mg_cart cs')) c
+  end.
+
+Definition meshgrid_ij (axes : list (list Z)) : list (list Z) :=
+  map (fun j => map (fun r => nth j r 0%Z) (mg_cart axes)) (seq 0 (length axes)).
+
+Definition flatten_nd (x : list Z) : list Z := x.          (* r.flatten() *)
+Definition reshape_n1 (x : list Z) : list Z := x.          (* u.reshape(-1, 1): the same values as an (n, 1) array *)
